@@ -54,7 +54,7 @@ struct S {
 impl S {
     fn new() -> Self {
         std::panic::set_hook(Box::new(|_| {}));
-        let dir = tempfile::tempdir().expect("tempdir");
+        let dir = crate::util::fast_tempdir();
         let mut pager = Pager::open(dir.path().join("t.ndb")).expect("pager");
         let tree = BTree::create(&mut pager).expect("create");
         S { dir, pager: Some(pager), tree: Some(tree) }
